@@ -99,6 +99,13 @@ func (ws *workerState) runOne(prefix []string) *Result {
 	}
 	if r.Diverged != "" {
 		ws.res.Divergences++
+		if os.Getenv("MCX_DEBUG") != "" {
+			if f, err := os.OpenFile(os.Getenv("MCX_DEBUG")+".diverged", os.O_APPEND|os.O_CREATE|os.O_WRONLY, 0o644); err == nil {
+				b, _ := json.Marshal(prefix)
+				fmt.Fprintf(f, "DIVERGED %s prefix=%s: %s\n", ws.job.Scn.Name, b, r.Diverged)
+				f.Close()
+			}
+		}
 		return r
 	}
 	if !ws.hashes[r.Hash] {
